@@ -221,6 +221,28 @@ def oracle_copy(case):
     if d:
         viol.append({'prop': PROP, 'kind': 'copied-subchart-behaves-differently',
                      'step': d['step_index'], 'detail': d})
+    # the guest plugged in under its own names (placeholder named like the guest's root, default
+    # renaming): host and guest are independent objects - editing the host leaves the guest alone
+    R = tree.root
+    others = [x['name'] for x in spec['states'] if x['name'] != R]
+    if not viol and others and 'host' not in gnames:
+        guest2 = to_statechart(spec)
+        before2 = from_statechart(guest2)
+        try:
+            host2 = Statechart('host2')
+            host2.add_state(CompoundState('host', initial=R), None)
+            host2.add_state(BasicState(R), 'host')
+            host2.copy_from_statechart(guest2, source=R, replace=R)
+            X = others[len(others) // 2]
+            host2.rename_state(X, X + '~')
+            labels['copies under the same names, host edited afterwards'] = 1
+            changed = from_statechart(guest2) != before2
+            d2 = None if changed else first_diff(ref, run_sig(spec, guest2, case['ops']))
+        except Exception as e:
+            changed, d2 = True, {'exc': type(e).__name__, 'msg': str(e)[:200]}
+        if changed or d2:
+            viol.append({'prop': PROP, 'kind': 'editing-the-host-changed-the-guest', 'step': None,
+                         'detail': d2 or {'renamed_in_host': X}})
     fired = sum(1 for s in ref if s['result'] for m in s['result']['micro'] if m['has_t'])
     keys = [sha(case)] if fired >= 3 else []
     return {'violations': viol, 'labels': labels, 'keys': keys,
